@@ -367,6 +367,7 @@ impl Scenario for DecodeFaults {
 
     fn execute(&self, cfg: &Cfg, steps: &[Step], obs: &mut Obs) {
         let (base, d) = world_for(&tokens(), &[], 0);
+        let mut w = base.clone();
         let ti = schema_index(cfg.spec.schema);
         let fid = d.tokens[ti].feed_id;
         let blob = cfg.spec.blob(&fid);
@@ -428,7 +429,7 @@ impl Scenario for DecodeFaults {
                     Ok(Err(_)) => {
                         obs.outcome("transport", kind, "undecompressable");
                         if st.onchain {
-                            onchain(&base, &d, ti, &compressed, None, kind, obs);
+                            onchain(&mut w, &base, &d, ti, &compressed, None, kind, obs);
                             if obs.should_stop() {
                                 return;
                             }
@@ -466,21 +467,26 @@ impl Scenario for DecodeFaults {
                                 got[..] == p[*s..*e],
                                 "C28",
                                 "blob_is_abi_slice",
-                                || format!("kind={kind},ref=in_range"),
+                                || format!("ref=in_range,kind={kind}"),
                                 || format!("blob of {} bytes differs from payload[{s}..{e}]", got.len()),
                             );
                             let ctx_ok = (0..3).all(|k| ctx[k][..] == p[k * 32..(k + 1) * 32]);
                             obs.require(ctx_ok, "C28", "context_words", || format!("kind={kind}"), || "report context differs from the first three words".into());
                         }
                         Err(why) => {
+                            // Does the blob at least equal the slice described by the low 64 bits of the two words?
+                            let low = match abi_slice_low64(&p) {
+                                Some((s, e)) if got[..] == p[s..e] => "match",
+                                _ => "mismatch",
+                            };
                             obs.require(
                                 false,
                                 "C28",
                                 "blob_is_abi_slice",
-                                || format!("kind={kind},ref={why}"),
+                                || format!("ref={why},low64_slice={low},kind={kind}"),
                                 || {
                                     format!(
-                                        "decode_full_report succeeded ({} bytes) although the ABI words describe no in-range slice: {why}; offset word={} length word@low64={}",
+                                        "decode_full_report succeeded ({} bytes) although the 256-bit ABI words describe no in-range slice: {why}; offset word={} length word(at low-64 offset)={}",
                                         got.len(),
                                         hex(&p[96..128]),
                                         low64_len_word(&p)
@@ -510,7 +516,7 @@ impl Scenario for DecodeFaults {
                 return;
             }
             if st.onchain {
-                onchain(&base, &d, ti, &compressed, Some(&p), kind, obs);
+                onchain(&mut w, &base, &d, ti, &compressed, Some(&p), kind, obs);
                 if obs.should_stop() {
                     return;
                 }
@@ -725,6 +731,24 @@ pub fn abi_slice(p: &[u8]) -> Result<(usize, usize), &'static str> {
     Ok((o + 32, end.to_usize().unwrap()))
 }
 
+/// The slice described when only the low 64 bits of the offset and length words are honoured (used to classify a
+/// deviation, never as the reference).
+fn abi_slice_low64(p: &[u8]) -> Option<(usize, usize)> {
+    if p.len() < 128 {
+        return None;
+    }
+    let off = u64::from_be_bytes(p[120..128].try_into().unwrap()) as u128;
+    if off < 128 || off + 32 > p.len() as u128 {
+        return None;
+    }
+    let o = off as usize;
+    let len = u64::from_be_bytes(p[o + 24..o + 32].try_into().unwrap()) as u128;
+    if off + 32 + len > p.len() as u128 {
+        return None;
+    }
+    Some((o + 32, o + 32 + len as usize))
+}
+
 /// Own reader of a report blob: `(bid, price, ask)` as the schema defines them (int192 = low 24 bytes, signed).
 struct Parsed {
     bid: BigInt,
@@ -865,6 +889,7 @@ fn check_blob(blob: &[u8], kind: &str, obs: &mut Obs) -> bool {
 
 /// The same bytes through the on-chain instruction, on a fork of the deployed world.
 fn onchain(
+    w: &mut chainsim::rt::World,
     base: &chainsim::rt::World,
     d: &chainsim::deploy::Dep,
     token: usize,
@@ -873,7 +898,6 @@ fn onchain(
     kind: &str,
     obs: &mut Obs,
 ) {
-    let mut w = base.clone();
     let key = d.tokens[token].price_feed;
     let before = w.data(&key).unwrap().to_vec();
     let out = w.process(chainsim::ex::update_feed_raw_ix(d, token, compressed.to_vec(), false));
@@ -898,15 +922,19 @@ fn onchain(
         return;
     }
     obs.probe("onchain_accepted");
+    // every case starts from the same deployed state: restore it after an accepted update
+    let after_world = std::mem::replace(w, base.clone());
+    let _ = after_world;
     // accepted on chain ⇒ the ABI words describe an in-range slice and the stored price is the faithful conversion
     let Some(p) = payload else { return };
     match abi_slice(p) {
         Err(why) => {
+            let low = if abi_slice_low64(p).is_some() { "match" } else { "mismatch" };
             obs.violation(
                 "C28",
                 "blob_is_abi_slice",
-                format!("kind={kind},ref={why},path=onchain"),
-                format!("update accepted although the ABI words describe no in-range slice: {why}"),
+                format!("ref={why},low64_slice={low},kind={kind},path=onchain"),
+                format!("update accepted although the 256-bit ABI words describe no in-range slice: {why}"),
             );
         }
         Ok((s, e)) => {
